@@ -53,16 +53,16 @@ theorem empty_dst_panics (H : Bytes → Bytes) (msg : Bytes) : Hand.Group.hashTo
   hashToScalar_empty_dst H msg
 
 /-- **C09 for the `HashToScalar` regenerated from `group.go` on this run** (`GenGroup.hashToScalar`: the expander call with
-`L = 48`, the `[48]byte(uniform)` conversion, then the wide reduction as modelled in `Hand.Fn`) -/
+`L = 48`, the `[48]byte(uniform)` conversion, then the wide reduction regenerated from `internal/scalar`) -/
 theorem hashToScalar_regenerated (H : Bytes → Bytes) (hH : HashOK H) (msg dst : Bytes) (hd : dst ≠ []) :
-    ∃ s, GenGroup.hashToScalar GroupTies.handHashOps H msg dst = some s ∧ sOk s ∧
+    ∃ s, GenGroup.hashToScalar H msg dst = some s ∧ sOk s ∧
       (sVal s).val = Rfc9380.hashToScalar H msg dst := by
   rw [GroupTies.hashToScalar_tie H hH]
   exact _root_.hashToScalar_spec H hH msg dst hd
 
 /-- the regenerated `HashToScalar` panics on an empty or nil DST -/
 theorem hashToScalar_regenerated_empty (H : Bytes → Bytes) (hH : HashOK H) (msg : Bytes) :
-    GenGroup.hashToScalar GroupTies.handHashOps H msg [] = none := by
+    GenGroup.hashToScalar H msg [] = none := by
   rw [GroupTies.hashToScalar_tie H hH]
   exact hashToScalar_empty_dst H msg
 
